@@ -64,10 +64,16 @@ def check_hist(sub, sk, p, tab, hist, fam, stats, shuffle=False):
     if shuffle:
         rng = np.random.default_rng(p * 1000 + len(hist))
         rng.shuffle(reg)
-    got = float(sk.query())
     exp, branch = ref_values(hist, p, tab)
     stats["n"] += 1
     stats["branches"].add((p, branch))
+    try:
+        got = float(sk.query())
+    except Exception as e:
+        sub.violation({"p": p, "hist": sorted(hist.items()), "shuffle": shuffle},
+                      f"p={p} histogram {sorted(hist.items())[:4]} ({fam}): query() raised "
+                      f"{type(e).__name__}: {e}")
+        return
     ok = any(abs(got - e) <= REL * max(1.0, abs(e)) for e in exp)
     if not ok:
         sub.violation(
